@@ -206,3 +206,78 @@ def verify_version_exhaustive(tier: str = "quick", seed: int = 0, known: Any = N
         res["violations"].append({"file": f"verify_version_{len(seen)}.json", "data": {"property": "C19", "standin": "verify_version_exhaustive",
                                                                                           "class": cls_, "failure": msg}})
     return res
+
+
+@standin("C19")
+def mode_classification(tier: str = "quick", seed: int = 0, known: Any = None) -> Dict[str, Any]:
+    """The program-level half of C19: a program is Stateful (Stateless) exactly when it *uses* an application-only
+    (signature-only) opcode -- wherever in the text, reachable or not, as the AVM checks opcodes over the whole program --
+    and that classification decides application vs logic signature.  Every mode-specific mnemonic of the AVM table
+    (spec/avm_ops.py) x placements (live, after `return`, after `err`, after `b`, inside an uncalled subroutine)."""
+    import logging
+    logging.disable(logging.CRITICAL)
+    t0 = time.time()
+    from spec.avm_ops import OPS
+    from contracts.tables import SAMPLES
+    from tealer.teal.parse_teal import parse_teal
+    from tealer.utils.teal_enums import ExecutionMode
+    from tealer.utils.command_line.common import init_tealer_from_single_contract
+    want_of = {"app": ExecutionMode.STATEFUL, "sig": ExecutionMode.STATELESS, "any": ExecutionMode.ANY}
+    placements = {
+        "live": lambda line, pre, post: f"{pre}{line}\n{post}int 1\nreturn\n",
+        "after-return": lambda line, pre, post: f"int 1\nreturn\n{pre}{line}\n{post}",
+        "after-err": lambda line, pre, post: f"int 1\nbnz ok\nerr\n{pre}{line}\n{post}ok:\nint 1\nreturn\n",
+        "after-b": lambda line, pre, post: f"b end\n{pre}{line}\n{post}end:\nint 1\nreturn\n",
+        "uncalled-subroutine": lambda line, pre, post: f"int 1\nreturn\nsub:\n{pre}{line}\n{post}retsub\n",
+    }
+    evals = 0
+    bad: list = []
+    notes: list = []
+    for mn, (pops, pushes, ver, mode, cost) in sorted(OPS.items()):
+        if mode == "any" and mn not in ("int", "txn", "global", "sha256"):
+            continue
+        line = SAMPLES.get(mn, mn)
+        if any(x in line.split() for x in ("l", "l1", "l2")):
+            continue
+        npop = pops if isinstance(pops, int) else 3
+        npush = pushes if isinstance(pushes, int) else 3
+        pre = "int 1\n" * npop
+        post = "pop\n" * npush
+        for pname, mk in placements.items():
+            src = f"#pragma version 8\n" + mk(line, pre, post)
+            evals += 1
+            try:
+                teal = parse_teal(src)
+            except Exception as e:  # pylint: disable=broad-except
+                notes.append(f"{mn}/{pname}: parse_teal raised {type(e).__name__}")   # C17's business
+                continue
+            if teal.mode != want_of[mode]:
+                bad.append((f"mode:{pname}", f"`{line}` ({mode}-only, placement {pname}): classified {teal.mode}, expected {want_of[mode]}", src))
+    # routing: the classification decides application vs logic signature
+    for mn, line, is_app in (("app_global_get", "byte 0x00\napp_global_get\npop", True), ("arg", "arg 0\npop", False)):
+        for pname in ("live", "after-return"):
+            src = "#pragma version 8\n" + placements[pname](line, "", "")
+            evals += 1
+            try:
+                tealer = init_tealer_from_single_contract(src, "f")
+            except Exception as e:  # pylint: disable=broad-except
+                notes.append(f"routing {mn}/{pname}: {type(e).__name__}")
+                continue
+            got_app = tealer.contracts["f"].contract_type.name != "LogicSig" if hasattr(tealer.contracts["f"], "contract_type") else None
+            if got_app is not None and got_app != is_app:
+                bad.append((f"routing:{pname}", f"`{mn}` ({pname}): analysed as {'application' if got_app else 'logic signature'}", src))
+    res: Dict[str, Any] = {"summary": {"function": "parse_teal.parse_teal (_detect_execution_mode) / init_tealer_from_single_contract",
+                                       "contract": "mode == Stateful/Stateless <=> an app-only / sig-only opcode occurs anywhere in the program text; "
+                                                   "the mode decides application vs logic signature",
+                                       "bound": "every mode-specific mnemonic of the AVM table x 5 placements (live and 4 unreachable ones) + 4 any-mode controls",
+                                       "evaluations": evals, "exhaustive": False, "failures": len(bad), "harness_notes": notes[:5],
+                                       "seconds": round(time.time() - t0, 2)},
+                           "violations": [], "known_lines": []}
+    seen = set()
+    for cls_, msg, src in bad:
+        if cls_ in seen or len(res["violations"]) >= 5:
+            continue
+        seen.add(cls_)
+        res["violations"].append({"file": f"mode_classification_{len(seen)}.json",
+                                  "data": {"property": "C19", "standin": "mode_classification (bounded)", "class": cls_, "failure": msg, "teal": src}})
+    return res
